@@ -333,6 +333,40 @@ def c15_scenarios(S, fmt, ch, rate, name, K, step=1, kinds=KINDS, stickies=(0, 1
                 S.add(*ops)
 
 
+def c19_foreign(S, seeds, rate, rng, nmut=12, perfield=True):
+    """independence from earlier library use, with arbitrary input as the earlier use: a reader of a valid file is interrupted by
+    opens (reads, closes) of mutated copies of that file -- same codec, header fields changed -- and must keep delivering the
+    same stream; writers started in between must all produce the same bytes (SameBytesOK: same parameters, same samples).
+    One scenario per format, so that every writer of it is compared with the first, undisturbed one."""
+    import gen_c03
+    for fmt, ch, data, do in seeds:
+        T = gen_core.type_for(fmt)
+        B = scen.block_hint(fmt, ch, rate)
+        nrd = min(2 * B + 5, 9000) if B > 1 else 200
+        n1 = min(B + 5, 600) if B > 1 else 60
+        ofmt = fmt if scen.major(fmt) == scen.RAW else 0
+        sysm = gen_c03.systematic_mutants(data, do)
+        hosm = gen_c03.hostile_mutants(data, do)
+        ms = rng.sample(sysm, min(nmut // 2, len(sysm))) + rng.sample(hosm, min(nmut // 2, len(hosm)))
+        if B > 1 and perfield:
+            # block codecs keep tables and parameters in their headers: one foreign file per header field (low byte + 1)
+            hdr = max(16, min(do if do > 0 else 64, len(data), 160))
+            for off in range(0, hdr - 1, 2):
+                m = bytearray(data)
+                m[off] = (m[off] + 1) & 0xFF
+                ms.append(bytes(m))
+        wseed = rng.randint(1, 10 ** 6)
+        writer = ["file 2 new", "open 2 vio w 2 %d %d %d" % (fmt, ch, rate), "write 2 %s f %d gen noise %d 0" % (T, min(nrd, 300), wseed), "close 2"]
+        S.scn(fmt="0x%x" % fmt, ch=ch, T=T, kind="c19f")
+        S.add("file 1 hex %s" % data.hex(), "open 0 vio r 1 %d %d %d" % (ofmt, ch, rate), "read 0 %s f %d" % (T, nrd))
+        S.add(*writer)
+        for k, m in enumerate(ms):
+            S.add("file 10 hex %s" % m.hex(), "open 1 vio r 10 %d %d %d" % (ofmt, ch, rate), "read 1 %s f 40" % T, "close 1")
+            S.add("seek 0 0 0", "read 0 %s f %d" % (T, n1))
+            S.add(*writer)
+        S.add("seek 0 0 0", "read 0 %s f %d" % (T, nrd), "close 0")
+
+
 def hexs(b):
     return b.hex() if b else "-"
 
